@@ -530,9 +530,11 @@ def gen_program(rng):
             elif depth > 0 and r < 0.22:
                 stop, start = rng.randint(0, 4), rng.randint(0, 2)
                 if rng.random() < 0.3:
-                    out += [str(stop), str(start), "do"] + block(depth - 1, True, inword, True) + [str(rng.randint(1, 2)), "+loop"]
+                    # (now and then `pause` is the very last word of the body, between the step and +loop)
+                    out += [str(stop), str(start), "do"] + block(depth - 1, True, inword, True) + [str(rng.randint(1, 2))] + \
+                           (["pause"] if rng.random() < 0.25 else []) + ["+loop"]
                 else:
-                    out += [str(stop), str(start), "do"] + block(depth - 1, True, inword, True) + ["loop"]
+                    out += [str(stop), str(start), "do"] + block(depth - 1, True, inword, True) + (["pause"] if rng.random() < 0.15 else []) + ["loop"]
             elif depth > 0 and r < 0.27 and vars_:
                 v = vars_[0]
                 # a counted begin ... until / while ... repeat (always terminates)
